@@ -722,6 +722,21 @@ func (v *Protocol) WritePacket(pkt Packet, streamID int) (err error) {
 		return oe.WithMessage(err, "write message")
 	}
 
+	if err = v.onPacketWriten(m, pkt); err != nil {
+		return oe.WithMessage(err, "on writen packet")
+	}
+
+	return
+}
+
+func (v *Protocol) onPacketWriten(m *Message, pkt Packet) (err error) {
+	switch pkt := pkt.(type) {
+	case *SetChunkSize:
+		// The peer reads the following messages with the chunk size we
+		// announced, so write them with it.
+		v.output.opt.chunkSize = pkt.ChunkSize
+	}
+
 	return
 }
 
